@@ -4,6 +4,11 @@
 # On success copies patch.diff, demo/, meta.json to /verif/seeded/<name>/ and appends the confirmation to meta.json.
 set -u
 SRC=$1; NAME=$2; WT=/tmp/wt_fix
+if [ ! -d $WT ]; then
+  # the scratch worktree is created on demand (and may be removed again with `git -C /repo worktree remove --force /tmp/wt_fix`)
+  git -C /repo worktree add --detach $WT HEAD -q || exit 2
+  ( cd $WT && cmake -G Ninja -B _build -DCMAKE_BUILD_TYPE=RelWithDebInfo -DCMAKE_CXX_FLAGS=-Wno-error -DWB_ENABLE_PYTHON=OFF > /dev/null ) || exit 2
+fi
 cd $WT || exit 2
 git reset -q --hard $(git -C /repo rev-parse HEAD)
 git apply --check $SRC/patch.diff || { echo "CONFIRM-FAIL patch does not apply"; exit 1; }
